@@ -247,12 +247,20 @@ func (this *Hnsw) Search(ctx context.Context, query math.Vector, k uint) (Search
 	}
 
 	n := math.MinInt(int(k), neighbors.Len())
-	result := make(SearchResult, n)
+	result := make(SearchResult, 0, n)
 	for i := n - 1; i >= 0; i-- {
 		item := neighbors.Pop()
-		result[i].Id = item.Value().(*hnswVertex).Id()
-		result[i].Metadata = item.Value().(*hnswVertex).Metadata()
-		result[i].Score = item.Priority()
+		vertex := item.Value().(*hnswVertex)
+		if vertex.isDeleted() {
+			// The start vertex is followed without looking at its tombstone (a Remove may be
+			// about to hand the entry point over): a removed item is not a result
+			continue
+		}
+		result = append(result, SearchResultItem{Id: vertex.Id(), Metadata: vertex.Metadata(), Score: item.Priority()})
+	}
+	// Popped farthest first
+	for i, j := 0, len(result)-1; i < j; i, j = i+1, j-1 {
+		result[i], result[j] = result[j], result[i]
 	}
 
 	return result, nil
